@@ -70,6 +70,13 @@ func genC11(r *rt.Rand, tier string, idx int) *world.Scenario {
 		sc.Extra = map[string]int64{"tikv_hold_secondary_commits": 1, "tikv_regions": 1}
 		sc.Parts = []string{hex.EncodeToString([]byte("k3"))}
 	}
+	if idx%50 == 9 {
+		if sc.Extra == nil {
+			sc.Extra = map[string]int64{}
+		}
+		sc.Class += "+empty-value-batch"
+		sc.Extra["empty_value_batch"], sc.Extra["empty_value_at"], sc.Extra["empty_value_nil"] = int64(4+r.Intn(10)), int64(r.Intn(20)), int64(r.Intn(2))
+	}
 	if idx%300 == 77 || idx%300 == 177 {
 		// a batch larger than the engine takes in one transaction (Badger: ~105 000 entries or ~10 MB), ending
 		// in a condition that fails: all of it or nothing, whatever the adapter does about the size
@@ -260,6 +267,58 @@ func c11Custom(t *testing.T, sc *world.Scenario, out *Outcome) {
 			return
 		}
 	}
+	if sc.Extra["empty_value_batch"] > 0 {
+		// a batch in which one write carries an empty value: an engine may store it or refuse the batch with an
+		// error of its own - either way all of the batch or nothing
+		pre := st.BeginBatchWrite()
+		pre.Put([]byte("zy-gone"), []byte("g"), 0)
+		if err := pre.Commit(ctx); err != nil {
+			out.Infra = "empty-value batch, preload: " + err.Error()
+			return
+		}
+		n := int(sc.Extra["empty_value_batch"])
+		at := int(sc.Extra["empty_value_at"]) % (n + 1)
+		bw := st.BeginBatchWrite()
+		for i := 0; i <= n; i++ {
+			switch {
+			case i == at && sc.Extra["empty_value_nil"] != 0:
+				bw.Put([]byte("zy-empty"), nil, 0)
+			case i == at:
+				bw.Put([]byte("zy-empty"), []byte{}, 0)
+			default:
+				bw.Put([]byte(fmt.Sprintf("zy-%02d", i)), []byte("x"), 0)
+			}
+		}
+		bw.Del([]byte("zy-gone"))
+		err := bw.Commit(ctx)
+		visible := 0
+		for i := 0; i <= n; i++ {
+			if i != at {
+				if _, gerr := st.Get(ctx, []byte(fmt.Sprintf("zy-%02d", i))); gerr == nil {
+					visible++
+				}
+			}
+		}
+		_, goneErr := st.Get(ctx, []byte("zy-gone"))
+		out.probe("batch-with-an-empty-value")
+		switch {
+		case err != nil && (visible > 0 || goneErr != nil):
+			out.violate(P, "batch-applied-in-part", "batch-applied-in-part engine="+stack+" empty-value", "[%s] a batch of %d writes, one of them with an empty value, and a delete failed (%v), yet %d of its writes are readable and the key it deletes reads %v", stack, n, err, visible, goneErr)
+		case err == nil && (visible != n || goneErr == nil):
+			out.violate(P, "batch-applied-in-part", "batch-applied-in-part engine="+stack+" empty-value", "[%s] a batch of %d writes, one of them with an empty value, and a delete committed, yet only %d of its writes are readable (deleted key: %v)", stack, n, visible, goneErr)
+		}
+		// leave the store as the model has it
+		clean := st.BeginBatchWrite()
+		for i := 0; i <= n; i++ {
+			clean.Del([]byte(fmt.Sprintf("zy-%02d", i)))
+		}
+		clean.Del([]byte("zy-empty"))
+		clean.Del([]byte("zy-gone"))
+		if cerr := clean.Commit(ctx); cerr != nil {
+			out.Infra = "empty-value batch, cleanup: " + cerr.Error()
+			return
+		}
+	}
 	if n := int(sc.Extra["huge"]); n > 0 {
 		pre := st.BeginBatchWrite()
 		pre.Put([]byte("zz-exists"), []byte("e"), 0)
@@ -393,6 +452,12 @@ func c11Custom(t *testing.T, sc *world.Scenario, out *Outcome) {
 						beginCount[b.k] = modCount[b.k]
 					}
 					beginStep := s.StepNo()
+					hasEmpty := false
+					for _, b := range use {
+						if (b.kind == "put" || b.kind == "pine" || b.kind == "cas") && b.v == "" {
+							hasEmpty = true
+						}
+					}
 					bw := st.BeginBatchWrite()
 					for _, b := range use {
 						switch b.kind {
@@ -542,6 +607,11 @@ func c11Custom(t *testing.T, sc *world.Scenario, out *Outcome) {
 					default:
 						if selfConflict {
 							// not judged
+						} else if hasEmpty {
+							// an engine that cannot store an empty value refuses the batch with an error of its own, whatever
+							// its conditions: nothing of it may be visible (the reads that follow and the final scan compare
+							// the store with the unchanged model)
+							out.probe("batch-with-an-empty-value-refused")
 						} else if !okNow || !okBegin {
 							miss := ""
 							for _, b := range use {
